@@ -118,8 +118,10 @@ BEYOND = {
 
 
 @st.composite
-def _fn(draw, name: str, n: int, beyond: str | None = None):
+def _fn(draw, name: str, n: int, beyond: str | None = None, own_names: list[str] | None = None):
     params = [f"a{i}" for i in range(n)]
+    if own_names is not None:
+        params = list(own_names)
     g = G(draw, params)
     if beyond is not None and n > 0:
         body = "    " + BEYOND[beyond].format(a=params[0])
@@ -149,10 +151,15 @@ def _case(draw):
     decls: list[list] = []
     counter = [0]
 
-    def newfn(n, bey=None):
+    def newfn(n, bey=None, args=None):
         name = f"f{counter[0]}"
         counter[0] += 1
-        src, fs = draw(_fn(name, n, bey))
+        own = None
+        if args is not None and n >= 2 and len(set(args)) == n and all(a.isascii() and a.isidentifier() for a in args) and draw(st.integers(0, 2)) == 0:
+            # the function's own parameter names are the model names it is called with, in another order
+            own = args[1:] + args[:1]
+            feats.add("parameter_names_cross_model_names")
+        src, fs = draw(_fn(name, n, bey, own))
         fsrc.append(src)
         fsrc.append("")
         feats.update(fs)
@@ -179,7 +186,7 @@ def _case(draw):
         args = [draw(st.sampled_from(pool)) for _ in range(draw(st.integers(1, 3)))]
         nm = names["derived"][i]
         feats.add("derived_parameter" if all(a in pnames for a in args) else "derived_variable")
-        decls.append(["derived", nm, {"fn": newfn(len(args)), "args": args}])
+        decls.append(["derived", nm, {"fn": newfn(len(args), None, args), "args": args}])
         avail.append(nm)
     for i in range(draw(st.integers(1, 3))):
         args = [draw(st.sampled_from(avail)) for _ in range(draw(st.integers(1, 3)))]
@@ -204,7 +211,7 @@ def _case(draw):
                 fsrc.append(f"def {name}(a0):\n    return {sign}(a0 * {draw(st.sampled_from(['2.0', '0.5', '1.5']))})\n")
                 fsrc.append("")
                 sto[v] = {"fn": {"kind": "lib", "module": "GENMOD", "name": name, "n": 1}, "args": a}
-        decls.append(["reaction", names["reaction"][i], {"fn": newfn(len(args), bey), "args": args, "stoich": sto}])
+        decls.append(["reaction", names["reaction"][i], {"fn": newfn(len(args), bey, args), "args": args, "stoich": sto}])
     if escaped:
         feats.add("name_needing_escaping")
     state = {v: draw(st.sampled_from([0.3, 0.7, 1.2, 2.5])) for v in vnames}
@@ -245,7 +252,7 @@ def _bind(spec, modname):
     return s
 
 
-NONTRIV = {"conditional", "chained_comparison", "math_function", "computed_coefficient_pos", "computed_coefficient_neg", "initial_assignment_variable", "initial_assignment_parameter", "fractional_coefficient", "name_needing_escaping"}
+NONTRIV = {"parameter_names_cross_model_names", "conditional", "chained_comparison", "math_function", "computed_coefficient_pos", "computed_coefficient_neg", "initial_assignment_variable", "initial_assignment_parameter", "fractional_coefficient", "name_needing_escaping"}
 LISTED_PRIORITY = ["name_needing_escaping", "initial_assignment_variable", "initial_assignment_parameter", "computed_coefficient_neg", "computed_coefficient_pos", "chained_comparison", "conditional", "math_function", "fractional_coefficient", "constant", "power", "unary_minus"]
 
 
